@@ -25,7 +25,7 @@ var R = hx.NewRecorder("C15", "cases = (endpoint kind: GMSSL client | GMSSL-only
 	"oracle = Handshake() returns (quiescence of the in-memory transport turns waiting into EOF; a read-after-EOF counter catches spinning), returns an error for every true deviation, HandshakeComplete stays false, no panic; legal variations (fragmented or coalesced messages, unknown ticket) must still succeed; non-trivial = deviation applied after at least one valid message or in the first message; distinct by hash of the plan")
 
 func TestMain(m *testing.M) {
-	R.Require("junk_certificate_verify", "jcv_vers:300", "ecdhe_ske", "hello_ext_sweep", "dev:big_record", "replay_deep:gmclient", "replay_deep:tlsclient", "replay_deep:gmserver", "replay_deep:tlsserver", "replay_deep:autoserver", "replay_control", "replay:omit_msg", "replay:hello_ext", "replay:swap_msgs", "hello_vector_lengths", "dev:cke_ciphertext_byte", "dev:cert_list", "short_messages_after_hello", "serverhello_version_sweep", "tls_resumption_deviation", "dev:inner_len", "dev:trailing", "dev:alert_flood", "inner_length_sweep", "peer_pressed_on_after_alert", "endpoint:gmclient", "endpoint:gmserver", "endpoint:autoserver", "endpoint:tlsserver", "endpoint:tlsclient", "vers_sweep_done", "dev:omit", "dev:repeat", "dev:retype", "dev:reorder", "dev:truncate", "dev:len_field", "dev:split", "dev:coalesce",
+	R.Require("junk_certificate_verify", "jcv_vers:300", "ecdhe_ske", "hello_ext_sweep", "dev:big_record", "replay_deep:gmclient", "replay_deep:tlsclient", "replay_deep:gmserver", "replay_deep:tlsserver", "replay_deep:autoserver", "replay_control", "replay:omit_msg", "replay:hello_ext", "replay:swap_msgs", "hello_vector_lengths", "dev:cke_ciphertext_byte", "dev:cert_list", "tls_scripted_server:control", "tls_scripted_server:version_above_offer", "tls_scripted_server:deviations", "short_messages_after_hello", "serverhello_version_sweep", "tls_resumption_deviation", "dev:inner_len", "dev:trailing", "dev:alert_flood", "inner_length_sweep", "peer_pressed_on_after_alert", "endpoint:gmclient", "endpoint:gmserver", "endpoint:autoserver", "endpoint:tlsserver", "endpoint:tlsclient", "vers_sweep_done", "dev:omit", "dev:repeat", "dev:retype", "dev:reorder", "dev:truncate", "dev:len_field", "dev:split", "dev:coalesce",
 		"dev:oversize", "dev:ccs_early", "dev:appdata_early", "dev:alert_fatal", "dev:unknown_record", "dev:close", "dev:record_overflow", "replay_perturbed", "legal_must_succeed", "cke_1byte", "hostile_suites")
 	for d := 0; d <= 5; d++ {
 		R.Require(fmt.Sprintf("depth:%d", d))
@@ -421,6 +421,74 @@ func TestC15_TLSResumptionDeviations(t *testing.T) {
 		}
 	}
 	R.Subspace("resuming TLS 1.2 ClientHello deviations (compression lists, suites, versions, ticket, Finished) x {TLS-only, auto-switch} server, keyed scripted client", int64(n), true)
+}
+
+// The TLS-mode client against the keyed scripted TLS 1.2 server (RSA key exchange, 0x009c): a control that must complete,
+// ServerHello versions above what the client offered (the server carries on at TLS 1.2 - completion is the oracle), and the
+// deviation catalogue of the GM/T 0024 peers applied to the server's messages (omit, repeat, retype, reorder, truncate,
+// length fields, inner lengths, trailing bytes, early CCS / application data, alerts, unknown types, oversize, close).
+func TestC15_TLSClientAgainstScriptedServer(t *testing.T) {
+	p := tlsx.GetPKI()
+	run := func(seed string, o rgmssl.TLSServerOpts, plan *rgmssl.Plan) (*tlsx.ScriptedResult, *rgmssl.TLSServerResult) {
+		cc := tlsx.TLSClient(p, "c"+seed)
+		cc.CipherSuites = []uint16{0x009c, 0x002f}
+		o.CertDER, o.Key, o.Echo = [][]byte{p.RSASrv.DER}, p.RSASrv.Key.(*rsa.PrivateKey), []byte("y")
+		o.Random = fill32(uint64(len(seed)) * 7919)
+		var sr *rgmssl.TLSServerResult
+		r := tlsx.RunClientAgainst(cc, []byte("x"), func(rw *wire.Conn) error {
+			var err error
+			sr, err = rgmssl.ServeTLS12RSA(rw, o, plan)
+			return err
+		})
+		return r, sr
+	}
+	r, sr := run("control", rgmssl.TLSServerOpts{}, nil)
+	if r.GM.HSErr != nil || r.PeerErr != nil || !sr.Completed || string(r.GM.Received) != "y" || string(sr.AppIn) != "x" {
+		t.Fatalf("harness/control: the TLS client does not complete against the scripted TLS 1.2 server: client hs=%v, server err=%v log=%v", r.GM.HSErr, r.PeerErr, sr.Log)
+	}
+	R.Case(true, hx.HashKey("tlssrv", "control"), "tls_scripted_server", "tls_scripted_server:control")
+	var n int64
+	for _, v := range []uint16{0x0304, 0x0305, 0x03ff, 0x0400, 0x7f17, 0xfefd, 0xffff} {
+		for _, rv := range []uint16{0x0303, 0x0301} {
+			r, sr := run(fmt.Sprint("vers", v, rv), rgmssl.TLSServerOpts{HelloVersion: v, RecVersion: rv}, nil)
+			if r.GM.Panic != nil {
+				t.Fatalf("TLS client PANICKED: %v\n%s", r.GM.Panic.Val, r.GM.Panic.Stack)
+			}
+			if r.GM.HSErr == nil || sr.ClientFin {
+				t.Fatalf("the TLS client (offering at most 0x0303) COMPLETED a handshake with a server whose ServerHello names version %04x (records stamped %04x) and that simply carried on at TLS 1.2: client hs=%v, server log=%v", v, rv, r.GM.HSErr, sr.Log)
+			}
+			n++
+		}
+	}
+	R.Case(true, hx.HashKey("tlssrv", "versions"), "tls_scripted_server", "tls_scripted_server:version_above_offer")
+	steps := []string{"ServerHello", "Certificate", "ServerHelloDone", "ChangeCipherSpec", "Finished"}
+	for _, kind := range devKinds {
+		for _, step := range steps {
+			for k := 0; k < map[bool]int{false: 3, true: 8}[hx.Thorough()]; k++ {
+				d := deviation{Kind: kind, Step: step, K: k*7 + len(step), Val: byte(31 * (k + 1))}
+				if kind == "cert_list" || kind == "big_record" || kind == "coalesce" {
+					continue // about GM/T 0024 certificate pairs / client certificates / held-back flights of the other scripts
+				}
+				plan, fired, legal, eff := planFor(d)
+				plan.IgnoreAlerts = k == 1
+				r, sr := run(fmt.Sprint("dev", kind, step, k), rgmssl.TLSServerOpts{IgnoreAlerts: k == 1}, plan)
+				desc := fmt.Sprintf("TLS client, scripted TLS 1.2 server deviates: %+v (effective %s) fired=%v | client: hs=%v | server: err=%v log=%v", d, eff, *fired, r.GM.HSErr, r.PeerErr, sr.Log)
+				if (eff == "repeat" || eff == "close") && step == "Finished" {
+					continue // behind the last handshake message
+				}
+				if eff == "inner_byte" || eff == "alert_warning" {
+					judge(t, r, true, false, desc) // may still be a well-formed message / tolerated: universal invariants only
+					continue
+				}
+				judge(t, r, legal, *fired, desc)
+				if *fired {
+					n++
+				}
+			}
+		}
+	}
+	R.Case(true, hx.HashKey("tlssrv", "deviations"), "tls_scripted_server", "tls_scripted_server:deviations")
+	R.Subspace("TLS client vs keyed scripted TLS 1.2 RSA server: ServerHello versions above the offer x record versions, and the deviation catalogue x 5 server steps x 3 (thorough 8) parameters", n, true)
 }
 
 func fill32(seed uint64) []byte {
